@@ -4,7 +4,7 @@ import json
 import numpy as onp
 
 from .. import values
-from ..case import Outcome, describe_exc, fail, ok, raised
+from ..case import Outcome, describe_exc, fail, from_autograd, ok, raised
 from ..engine import Prop, Test
 
 RULE = (
@@ -172,6 +172,8 @@ def index_body(c):
         vjp, y = autograd.make_vjp(take)(x)
         r = vjp(g)
     except Exception as e:
+        if not from_autograd(e):
+            raise
         if _missing(e):
             return raised(e, "rev", labels=labels, sample=sample)
         return fail("unexpected_exception", "reverse: " + describe_exc(e), bucket("rev_exception"), sample=sample)
@@ -186,6 +188,8 @@ def index_body(c):
     try:
         r2 = onp.asarray(vjp(g))
     except Exception as e:
+        if not from_autograd(e):
+            raise
         return fail("unexpected_exception", "second vjp call: " + describe_exc(e), bucket("rev_exception"), sample=sample)
     if not onp.array_equal(r2, ra):
         return fail("history_dependence", "second call of the same VJP gives a different gradient", bucket("history"), sample=sample)
@@ -194,6 +198,8 @@ def index_body(c):
     try:
         yv, t = autograd.make_jvp(take)(x)(v)
     except Exception as e:
+        if not from_autograd(e):
+            raise
         if _missing(e):
             return raised(e, "fwd", labels=labels, sample=sample)
         return fail("unexpected_exception", "forward: " + describe_exc(e), bucket("fwd_exception"), sample=sample)
@@ -304,6 +310,8 @@ def mixing_body(c):
         got2 = onp.asarray(vjp(1.0))
         got3 = onp.asarray(autograd.grad(lambda xx: f(xx, anp))(x))
     except Exception as e:
+        if not from_autograd(e):
+            raise
         if _missing(e):
             return raised(e, "rev", labels=labels, sample=sample)
         return fail("unexpected_exception", describe_exc(e), bucket("exception"), sample=sample)
